@@ -173,7 +173,7 @@ def parse_result(r):
     return None
 
 
-def validate(ctx, traces, mode, desc, *, behaviours=None, timeout=900, report=True, max_reports=3):
+def validate(ctx, traces, mode, desc, *, behaviours=None, timeout=900, report=True, max_reports=3, quiet=False):
     """TLC (TunnelTimeTrace) over the recorded traces, one deterministic pass.  Property-layer failures ->
     ctx.violation (they are statements about values the real collectors showed; at most max_reports per kind are
     written out, the rest counted); mechanism-layer differences -> drift.
@@ -196,6 +196,8 @@ def validate(ctx, traces, mode, desc, *, behaviours=None, timeout=900, report=Tr
     for ln in res["drifts"]:
         tn, orig = index[ln - 1]
         out["drift"] += 1
+        if quiet:
+            continue
         ctx.cov["drift"] += 1
         if out["drift"] <= 3:
             ctx.notes.append("drift (%s): trace %d: observed scrape differs from the mechanism layer: %s | %s" % (
